@@ -134,6 +134,81 @@ def history_experiment(rep, seed, n, q):
         model.close()
 
 
+def classes_of(m, path=()):
+    out = []
+    for d in m:
+        if d[0] == 'class' and d[1] is None and path:
+            out.append('::'.join(path + (d[3],)))
+        elif d[0] == 'ns':
+            out += classes_of(d[2], path + (d[1],))
+    return out
+
+
+def _seq_job(job):
+    """several wrapper objects, one after the other IN ONE PROCESS, with different ignore lists / options; the result of
+    the last run must equal the result of the same run in a process of its own"""
+    k, seed = job
+    r = random.Random('c14s/%d/%d' % (seed, k))
+    g = G.Gen(r, G.Profile(matlab_safe=True, max_decls=6, p_template=0.15))
+    m = g.module()
+    text = G.text(G.tokens(m))
+    names = classes_of(m)
+    d = scratch()
+    try:
+        src = os.path.join(d, 'in.i')
+        with open(src, 'w') as f:
+            f.write(text)
+        other = os.path.join(d, 'other.i')
+        with open(other, 'w') as f:
+            f.write('namespace c14 { class Seen { Seen(); void take(const c14::Seen& s, int n) const; }; }')
+        ign = r.sample(names, min(len(names), r.randint(1, 2))) if names else ['c14::Seen']
+        earlier = [{'src': r.choice([src, other]), 'top': r.choice(['', '']), 'boost': r.choice(['0', '1']),
+                    'ign': ','.join(r.choice([ign, [], ['c14::Seen']]))} for _ in range(r.randint(1, 3))]
+        earlier[0]['ign'] = ','.join(ign)
+        earlier[0]['src'] = src
+        last = {'src': src, 'top': '', 'boost': r.choice(['0', '1']), 'ign': ','.join(r.choice([[], [], ign[:1]]))}
+        runs = earlier + [last]
+        for i, x in enumerate(runs):
+            x['outdir'] = os.path.join(d, 'seq%d' % i)
+            os.makedirs(x['outdir'])
+        spec = os.path.join(d, 'seq.json')
+        json.dump(runs, open(spec, 'w'))
+        env = dict(os.environ, PYTHONHASHSEED='0', PYTHONPATH=common.REPO, VERIF_REPO=common.REPO)
+        p = subprocess.run(['/venv/bin/python', os.path.join(common.VERIF, 'harness', 'c14_driver.py'), '--sequence', spec],
+                           cwd=d, env=env, capture_output=True, text=True, timeout=600)
+        lines = [json.loads(l) for l in p.stdout.split('\n') if l.startswith('{')]
+        alone_dir = os.path.join(d, 'alone')
+        os.makedirs(alone_dir)
+        alone = drive(src, alone_dir, last['top'], last['boost'] == '1', [x for x in last['ign'].split(',') if x], 0, d, None)
+        return {'text': text, 'runs': [{a: b for a, b in x.items() if a != 'outdir'} for x in runs],
+                'in_sequence': lines[-1] if len(lines) == len(runs) else {'error': p.stderr[-300:]}, 'alone': alone}
+    finally:
+        shutil.rmtree(d, ignore_errors=True)
+
+
+def sequence_experiment(rep, seed, n):
+    with mp.get_context('fork').Pool(12) as pool:
+        results = pool.map(_seq_job, [(k, seed) for k in range(n)], chunksize=1)
+    shown = 0
+    for res in results:
+        rep.hit(common.sha(res['text'] + repr(res['runs'])), True)
+        a, b = res['in_sequence'], res['alone']
+        if 'error' in a or 'error' in b:
+            rep.violation({'kind': 'harness-error', 'what': 'sequence driver failed', 'detail': [a, b]}, no_input=True)
+            continue
+        if a != b:
+            diff = [f for f in set(a.get('matlab', {}) if isinstance(a.get('matlab'), dict) else []) |
+                    set(b.get('matlab', {}) if isinstance(b.get('matlab'), dict) else [])
+                    if not (isinstance(a.get('matlab'), dict) and isinstance(b.get('matlab'), dict)) or a['matlab'].get(f) != b['matlab'].get(f)]
+            if shown < 3:
+                shown += 1
+                rep.violation({'kind': 'counterexample', 'what': 'the output of a wrapper depends on wrappers created earlier in the '
+                               'same process (pybind equal: %s; MATLAB files that differ: %s)' % (a.get('pybind') == b.get('pybind'), sorted(diff)[:6]),
+                               'input': res['text'], 'runs_in_one_process': res['runs']})
+        else:
+            rep.bump('sequence_equal')
+
+
 def parallel_experiment(rep, seed, nproc):
     """nproc script processes at once, distinct outputs in one build directory"""
     r = random.Random('c14p/%d' % seed)
@@ -270,6 +345,7 @@ def run(rep, tier, seed, replay=None, proof_ok=True):
         else:
             rep.bump('env_equal')
         rep.sample({'input': text[:200], 'runs': len(runs), 'pybind_sha': str(base.get('pybind'))[:16]}, cap=3)
+    sequence_experiment(rep, seed, 24 if tier == 'quick' else 400)
     history_experiment(rep, seed, 25 if tier == 'quick' else 400, q)
     strace_experiment(rep, seed, 3 if tier == 'quick' else 25)
     parallel_experiment(rep, seed, 16)
